@@ -4,7 +4,10 @@
 A test spec:
   {'name','parallel','priority','dur':[ms per iteration],'rc':[status per iteration],'should_fail','xfail_kw',
    (an rc < 0 means: the program dies by signal -rc)
-   'timeout': None|int seconds, 'protocol':'exitcode'|'tap','tap': None|str,'term','suites':[...],'victim':bool,
+   'timeout': None|int seconds, 'protocol':'exitcode'|'tap'|'gtest'|'rust','tap': None|str,'term','suites':[...],
+   'victim':bool,
+   'xml': (gtest) what happens to the XML report meson asks for: 'full'|'lie'|'cut'|'empty'|'garbage'|'none', a
+          '/'-separated list is indexed by iteration,  'rust': (rust) list of libtest result lines 'K.R' (see the probe),
    'leak': ms a forked helper keeps the test's stdout/stderr open after the test program exited, 'leakterm'}
 
 `tests` is listed in the order meson is documented to start them (descending priority; the declaration order
@@ -14,6 +17,7 @@ depend on that order at all).
 """
 from __future__ import annotations
 
+import json
 import os
 import random
 import sys
@@ -23,7 +27,7 @@ PROBE = os.path.join(os.path.dirname(os.path.dirname(os.path.dirname(os.path.abs
 PYTHON = sys.executable
 SUITES = ['s1', 's2', 's3']
 PROFILES = ['long-par-before-serial', 'zeros', 'serial-b2b', 'mixed', 'classify', 'allgood', 'saturate',
-            'stragglers', 'victims', 'maxfail-race', 'onebad', 'leaky']
+            'stragglers', 'victims', 'maxfail-race', 'onebad', 'leaky', 'protocols']
 VICTIM_DUR = 5000     # ms: far beyond any effective timeout used for victims (<= 1 s)
 
 
@@ -31,7 +35,7 @@ def _t(name: str, **kw: T.Any) -> dict:
     d = {'name': name, 'parallel': True, 'priority': 0, 'dur': [0], 'rc': [0], 'should_fail': False,
          'xfail_kw': 'should_fail', 'timeout': None, 'protocol': 'exitcode', 'tap': None, 'term': 'default',
          'suites': [], 'victim': False, 'leak': 0, 'leakterm': 'default', 'out': 0, 'err': 0, 'outnl': True,
-         'desc': 'plain'}
+         'desc': 'plain', 'xml': None, 'rust': None}
     d.update(kw)
     return d
 
@@ -106,6 +110,108 @@ def _durs(rng: random.Random, lo: int, hi: int) -> T.List[int]:
     return d
 
 
+# ---- protocols 'gtest' and 'rust' -----------------------------------------------------------------------------
+XML_MODES = ['full', 'lie', 'none', 'cut', 'empty', 'garbage']
+_RUST_PLAIN = ['u', 'n', 'd']              # names libtest prints bare
+_RUST_DECORATED = ['p', 'dp', 'dc', 'dn']  # names libtest decorates: "- should panic", "- compile fail", "- compile"
+
+
+def rust_items(rng: random.Random, outcome: str, decorated_fail: bool = False) -> T.List[str]:
+    """libtest result lines for a binary whose run is 'ok' | 'fail' | 'ignored' | 'empty' as a whole."""
+    if outcome == 'empty':
+        return []
+    if outcome == 'ignored':
+        return [rng.choice(_RUST_PLAIN) + '.' + rng.choice(['ign', 'ignr']) for _ in range(rng.randint(1, 3))]
+    items = [rng.choice(_RUST_PLAIN + _RUST_DECORATED) + '.ok' for _ in range(rng.randint(0 if outcome == 'fail' else 1, 4))]
+    if rng.random() < 0.3:
+        items.append(rng.choice(_RUST_PLAIN) + '.' + rng.choice(['ign', 'ignr']))
+    if outcome == 'fail':
+        kinds = ['p', 'dp', 'dc'] if decorated_fail else _RUST_PLAIN
+        items += [rng.choice(kinds) + '.fail' for _ in range(rng.randint(1, 2))]
+    rng.shuffle(items)
+    return items
+
+
+def _protocols_project(rng: random.Random, add: T.Callable[..., dict]) -> None:
+    """Directed project: every kind of XML report x exit status for protocol 'gtest' (also when the limit passes while
+    the report is half written), every shape of libtest line x outcome for protocol 'rust'.  Tests whose scripted
+    outcome is good carry good=True (they get suite 'good': a run of only those must exit 0)."""
+    def g(mode: str, rc: int, **kw: T.Any) -> dict:
+        return add(parallel=rng.random() < 0.85, dur=[rng.randint(0, 25)], protocol='gtest', xml=mode, rc=[rc], **kw)
+
+    bad = [1, 2, 3, 42, 127, 255]
+    unreadable = ['cut', 'empty', 'garbage']
+    fixed = [('cut', 0, {}), ('cut', 77, {}), ('cut', rng.choice(bad), {}), ('cut', 99, {}),
+             (rng.choice(unreadable), 0, {}), (rng.choice(unreadable), 77, {}), (rng.choice(unreadable), rng.choice(bad), {}),
+             ('empty', rng.choice([0, 0, 77, 3]), {}), ('garbage', rng.choice([0, 0, 77, 3]), {}),
+             ('lie', 0, {}), ('lie', rng.choice(bad), {}), ('full', 0, {}), ('full', rng.choice(bad), {}),
+             ('none', 0, {}), ('none', rng.choice(bad + [99]), {}),
+             (rng.choice(unreadable), rng.choice(_SIGNALS), {}),
+             (rng.choice(unreadable), rng.choice(bad), {'should_fail': True}),
+             (rng.choice(XML_MODES), 0, {'should_fail': True}),
+             # a report left by another iteration / an earlier invocation, not rewritten this time
+             ('cut/none', 0, {}), ('lie/none', 0, {}), ('none/cut', rng.choice([0, 77]), {})]
+    rng.shuffle(fixed)
+    for mode, rc, kw in fixed:
+        g(mode, rc, good=rc in (0, 77) and not kw, **kw)
+    # the limit passes while the report is half written (or missing): TIMEOUT whatever the file looks like
+    for k, mode in enumerate(rng.sample(['cut', 'full', 'lie'], 2) + ['none']):
+        add(parallel=True, dur=[VICTIM_DUR], timeout=1, victim=True, protocol='gtest', xml=mode,
+            term=['default', 'handle', 'ignore'][(k + rng.randint(0, 2)) % 3], rc=[rng.choice([0, 1])])
+    add(parallel=False, dur=[rng.randint(0, 30)], good=True)
+
+    def r(outcome: str, decorated_fail: bool = False, **kw: T.Any) -> dict:
+        return add(parallel=rng.random() < 0.85, dur=[rng.randint(0, 25)], protocol='rust',
+                   rust=rust_items(rng, outcome, decorated_fail), rc=[101 if outcome == 'fail' else 0], **kw)
+
+    shapes = [('ok', False, {}), ('ok', False, {}), ('fail', False, {}), ('fail', True, {}), ('fail', True, {}),
+              ('ignored', False, {}), ('empty', False, {}), ('fail', True, {'should_fail': True}),
+              ('fail', False, {'should_fail': True}), ('ok', False, {'should_fail': True})]
+    rng.shuffle(shapes)
+    for outcome, dec, kw in shapes:
+        r(outcome, dec, good=outcome != 'fail' and not kw, **kw)
+    # the only failure is on a decorated name / the only result line is a decorated one
+    add(parallel=True, dur=[rng.randint(0, 25)], protocol='rust', rc=[101], good=False,
+        rust=[rng.choice(['p', 'dp', 'dc']) + '.fail'])
+    add(parallel=True, dur=[rng.randint(0, 25)], protocol='rust', rc=[101], good=False,
+        rust=['u.ok', 'd.ok', rng.choice(['p', 'dp', 'dc']) + '.fail', 'n.ok'])
+    add(parallel=True, dur=[rng.randint(0, 25)], protocol='rust', rc=[0], good=True,
+        rust=[k + '.ok' for k in _RUST_DECORATED])
+    add(parallel=True, dur=[rng.randint(0, 25)], protocol='rust', rc=[0], good=True,
+        rust=[k + '.ok' for k in _RUST_PLAIN])
+    add(parallel=False, dur=[rng.randint(0, 30)], good=True)
+
+
+def _protocol_pass(seq: T.List[dict], profile: str) -> None:
+    """Other profiles: some exit-code tests speak 'gtest' (any exit status, any report) or 'rust' (libtest lines whose
+    verdict is the one the exit status had) instead.  Goodness/badness of every test is preserved, so the profiles
+    keep their meaning.  Own random stream (a function of the project), the main stream is not consumed."""
+    prng = random.Random('c12-protocols:' + json.dumps(seq, sort_keys=True))
+    for t in seq:
+        if t['protocol'] != 'exitcode' or t['leak']:
+            continue
+        r = prng.random()
+        if t['victim']:
+            if r < 0.3:
+                t.update(protocol='gtest', xml=prng.choice(['cut', 'full', 'lie', 'none']))
+            continue
+        if any(x < 0 for x in t['rc']):
+            continue        # deaths by signal stay with the exit-code protocol here ('protocols' has them for gtest)
+        if r < 0.12:
+            mode = prng.choice(XML_MODES + ['cut', 'empty'])
+            if len(t['rc']) > 1 or prng.random() < 0.2:
+                mode += '/' + prng.choice(XML_MODES)
+            t.update(protocol='gtest', xml=mode)
+        elif r < 0.22 and len(t['rc']) == 1 and not t['out']:
+            rc = t['rc'][0] & 0xFF
+            if rc == 0:
+                t.update(protocol='rust', rust=rust_items(prng, 'ok'))
+            elif rc == 77 and not t['should_fail']:
+                t.update(protocol='rust', rust=rust_items(prng, prng.choice(['ignored', 'ignored', 'empty'])), rc=[0])
+            elif rc not in (77, 99) and not t['should_fail']:
+                t.update(protocol='rust', rust=rust_items(prng, 'fail', prng.random() < 0.6), rc=[101])
+
+
 def gen_project(rng: random.Random, profile: str, idx: int = 0) -> dict:
     """One project. tests are laid out in intended start order."""
     seq: T.List[dict] = []
@@ -118,7 +224,7 @@ def gen_project(rng: random.Random, profile: str, idx: int = 0) -> dict:
         seq.append(t)
         return t
 
-    good_only = profile not in ('mixed', 'classify', 'maxfail-race', 'leaky')
+    good_only = profile not in ('mixed', 'classify', 'maxfail-race', 'leaky', 'protocols')
     P = lambda lo, hi, **kw: add(parallel=True, dur=_durs(rng, lo, hi), **kw)   # noqa: E731
     S = lambda lo, hi, **kw: add(parallel=False, dur=_durs(rng, lo, hi), **kw)  # noqa: E731
 
@@ -186,6 +292,8 @@ def gen_project(rng: random.Random, profile: str, idx: int = 0) -> dict:
             add(parallel=rng.random() < 0.6, dur=[rng.randint(0, 40)], leak=rng.randint(40, 220),
                 rc=[rng.choice([0, 0, 1, 77, 99])], should_fail=rng.random() < 0.25)
         S(0, 40)
+    elif profile == 'protocols':
+        _protocols_project(rng, add)
     elif profile == 'maxfail-race':
         # a failing short test while long parallel tests (some ignoring SIGTERM) are still running.  What is in
         # flight when the run is cut short would end with every kind of status (not only 0): whatever is reported
@@ -220,11 +328,11 @@ def gen_project(rng: random.Random, profile: str, idx: int = 0) -> dict:
     if len(seq) < 5:
         for _ in range(5 - len(seq)):
             P(0, 50)
-    seq = seq[:40]
+    seq = seq[:40] if profile != 'protocols' else seq
 
     repeat_var = profile in ('mixed', 'classify')
     for t in seq:
-        if not t['victim'] and t['rc'] == [0] and profile not in ('maxfail-race', 'zeros', 'leaky'):
+        if not t['victim'] and t['rc'] == [0] and profile not in ('maxfail-race', 'zeros', 'leaky', 'protocols'):
             if profile in ('classify', 'mixed', 'allgood', 'onebad') or rng.random() < 0.3:
                 _classify_fields(rng, t, good_only, repeat_var)
     if profile == 'onebad':
@@ -272,7 +380,7 @@ def gen_project(rng: random.Random, profile: str, idx: int = 0) -> dict:
     # (below / at / far above asyncio's 64 KiB stream limit; stdout only for exitcode tests, stderr for any), and
     # TAP subtest descriptions containing characters that mean something elsewhere in TAP ('#')
     _SIZES = [1000, 65535, 65536, 65537, 70000, 100000, 200000]
-    plain = [t for t in seq if not t['victim'] and not t['leak']]
+    plain = [t for t in seq if not t['victim'] and not t['leak'] and profile != 'protocols']
     for t in plain:
         if t['protocol'] == 'tap' and rng.random() < 0.4:
             t['desc'] = rng.choice(['hash', 'sharp', 'path'])
@@ -303,7 +411,13 @@ def gen_project(rng: random.Random, profile: str, idx: int = 0) -> dict:
         # generous or disabled (0 / negative = no limit, Unit-tests.md) timeouts on everything that is not a victim
         if not t['victim']:
             t['timeout'] = rng.choice([None, None, 0, -1, -1, -7, -30, 600, 1000]
-                                      if profile not in ('victims', 'leaky') else [0, -1, -3, 600, 1000])
+                                      if profile not in ('victims', 'leaky', 'protocols') else [0, -1, -3, 600, 1000])
+    if profile == 'protocols':
+        for t in seq:
+            if t.pop('good', False):
+                t['suites'] = sorted(set(t['suites']) | {'good'})
+    else:
+        _protocol_pass(seq, profile)
 
     # priorities: non-increasing along seq, with random break points
     prio = rng.choice([0, 0, 10, 1000])
@@ -341,6 +455,10 @@ def probe_args(t: dict) -> T.List[str]:
         a.append('outnl=0')
     if t.get('desc', 'plain') != 'plain':
         a.append('desc=' + t['desc'])
+    if t.get('xml'):
+        a.append('xml=' + t['xml'])
+    if t.get('rust') is not None:
+        a.append('rust=' + ','.join(t['rust']))
     if t['victim']:
         a.append('cap=60')
     return a
@@ -428,7 +546,7 @@ def gen_invocations(rng: random.Random, proj: dict, count: int) -> T.List[dict]:
         if prof == 'onebad':
             out.append(inv)
             continue
-        if prof in ('victims', 'leaky'):
+        if prof in ('victims', 'leaky', 'protocols'):
             inv['j'] = rng.choice([1, 2, 3, 8])
             # effective timeout of victims: timeout 1 s x multiplier
             inv['tmult'] = rng.choice([None, 0.3, 0.5, 0.25])
